@@ -184,7 +184,7 @@ example : quad (FejerFirst.weights 5) (FejerFirst.points 5) (fun x => (X ^ 4 + X
       (natDegree_add_le _ _).trans (max_le (by simp) (by simp))
     omega)
 
-/-! ### Fejér-2 (known finding) and Clenshaw–Curtis (not proved) -/
+/-! ### Fejér-2 (known finding) -/
 
 /-- Full statement for Fejér-2 (degree ≤ n-1 for every n ≥ 2).  **False for the code as it is**:
 see `fejer2_fails_at_2`. -/
@@ -209,13 +209,5 @@ theorem fejer2_fails_at_2 : ¬ fejer2_exact_full := by
   rw [fejer2_weights_two] at h2
   simp [quad, FejerSecond.points, FejerSecond.theta, List.range_succ] at h2
   norm_num at h2
-
-/-- Full statement for Clenshaw–Curtis (degree ≤ n-1 for every n ≥ 2).  Not proved in Lean (the
-discrete orthogonality on the nodes `kπ/(n-1)` is not in Mathlib); decided on the implementation
-by the exact-moment oracle for every `n ≤ 64`, the loop bounds are tied by the correspondence. -/
-def clenshawcurtis_exact_full : Prop :=
-  ∀ n : ℕ, 2 ≤ n → ∀ p : ℝ[X], p.natDegree < n →
-    quad (ClenshawCurtis.weights n) (ClenshawCurtis.points n) (fun x => p.eval x)
-      = ∫ x in (-1 : ℝ)..1, p.eval x
 
 end GridVerif.C01
